@@ -62,6 +62,7 @@ class AbstractHasMetadata(object):
 
     @attrs.setter
     def attrs(self, value):
+        value = dict(value) # the new content may be (a view of) the current one: read it before clearing
         del self.attrs
         self.attrs.update(value)
          
